@@ -6,59 +6,179 @@ EXTENDS Num
 \* @typeAlias: numEv = {op: Str, w: Int, a: Int, b: Int, c: Int, d: Int, ok: Bool, v: Int, panic: Bool};
 NumProps_aliases == TRUE
 
-(* the code's behaviour, including failures the documentation does not require *)
+(* the code's behaviour per helper, including failures the documentation does not require *)
+\* @type: ($numEv) => {ok: Bool, v: Int};
+Precise_mul_div(e) == MulDivFloor(e.a, e.b, e.c)
+\* @type: ($numEv) => {ok: Bool, v: Int};
+Precise_mul_div_ceil(e) == MulDivCeil(e.a, e.b, e.c)
+\* @type: ($numEv) => {ok: Bool, v: Int};
+Precise_mul_div_signed(e) == MulDivSigned(e.a, e.b, e.c)
+\* @type: ($numEv) => {ok: Bool, v: Int};
+Precise_round_up_div(e) == RoundUpDiv(e.a, e.b)
+\* @type: ($numEv) => {ok: Bool, v: Int};
+Precise_round_up_mag_div(e) == RoundUpMagDiv(e.a, e.b)
+\* @type: ($numEv) => {ok: Bool, v: Int};
+Precise_bound_magnitude(e) == BoundMagnitude(e.a, e.b, e.c)
+\* @type: ($numEv) => {ok: Bool, v: Int};
+Precise_add_signed(e) == AddSigned(e.a, e.b)
+\* @type: ($numEv) => {ok: Bool, v: Int};
+Precise_sub_signed(e) == SubSigned(e.a, e.b)
+\* @type: ($numEv) => {ok: Bool, v: Int};
+Precise_mul_signed(e) == MulSigned(e.a, e.b)
+\* @type: ($numEv) => {ok: Bool, v: Int};
+Precise_signed_sub(e) == SignedSub(e.a, e.b)
+\* @type: ($numEv) => {ok: Bool, v: Int};
+Precise_to_signed(e) == ToSigned(e.a)
+\* @type: ($numEv) => {ok: Bool, v: Int};
+Precise_to_opposite_signed(e) == ToOppSigned(e.a)
+\* @type: ($numEv) => {ok: Bool, v: Int};
+Precise_diff(e) == Ok(Diff(e.a, e.b))
+\* @type: ($numEv) => {ok: Bool, v: Int};
+Precise_apply_factor(e) == ApplyFactor(e.a, e.b)
+\* @type: ($numEv) => {ok: Bool, v: Int};
+Precise_div_to_factor(e) == DivToFactor(e.a, e.b, e.c = 1)
+\* @type: ($numEv) => {ok: Bool, v: Int};
+Precise_div_to_factor_signed(e) == DivToFactorSigned(e.a, e.b)
+\* @type: ($numEv) => {ok: Bool, v: Int};
+Precise_apply_exponent_factor(e) == ApplyExponentFactor(e.a, e.b * Unit)
+\* @type: ($numEv) => {ok: Bool, v: Int};
+Precise_apply_factors(e) == ApplyFactors(e.a, e.b, e.c * Unit)
+\* @type: ($numEv) => {ok: Bool, v: Int};
+Precise_pow_fixed(e) == PowFixed(e.a, e.b * Unit)
+\* @type: ($numEv) => {ok: Bool, v: Int};
+Precise_usd_to_mt(e) == UsdToMarketToken(e.a, e.b, e.c, e.d)
+\* @type: ($numEv) => {ok: Bool, v: Int};
+Precise_mt_to_usd(e) == MarketTokenToUsd(e.a, e.b, e.c)
+
 \* @type: ($numEv) => {ok: Bool, v: Int};
 Precise(e) ==
-  CASE e.op = "mul_div"            -> MulDivFloor(e.a, e.b, e.c)
-    [] e.op = "mul_div_ceil"       -> MulDivCeil(e.a, e.b, e.c)
-    [] e.op = "mul_div_signed"     -> MulDivSigned(e.a, e.b, e.c)
-    [] e.op = "round_up_div"       -> RoundUpDiv(e.a, e.b)
-    [] e.op = "round_up_mag_div"   -> RoundUpMagDiv(e.a, e.b)
-    [] e.op = "bound_magnitude"    -> BoundMagnitude(e.a, e.b, e.c)
-    [] e.op = "add_signed"         -> AddSigned(e.a, e.b)
-    [] e.op = "sub_signed"         -> SubSigned(e.a, e.b)
-    [] e.op = "mul_signed"         -> MulSigned(e.a, e.b)
-    [] e.op = "signed_sub"         -> SignedSub(e.a, e.b)
-    [] e.op = "to_signed"          -> ToSigned(e.a)
-    [] e.op = "to_opposite_signed" -> ToOppSigned(e.a)
-    [] e.op = "diff"               -> Ok(Diff(e.a, e.b))
-    [] e.op = "apply_factor"       -> ApplyFactor(e.a, e.b)
-    [] e.op = "div_to_factor"      -> DivToFactor(e.a, e.b, e.c = 1)
-    [] e.op = "div_to_factor_signed" -> DivToFactorSigned(e.a, e.b)
-    [] e.op = "apply_exponent_factor" -> ApplyExponentFactor(e.a, e.b * Unit)
-    [] e.op = "apply_factors"      -> ApplyFactors(e.a, e.b, e.c * Unit)
-    [] e.op = "pow_fixed"          -> PowFixed(e.a, e.b * Unit)
-    [] e.op = "usd_to_mt"          -> UsdToMarketToken(e.a, e.b, e.c, e.d)
-    [] e.op = "mt_to_usd"          -> MarketTokenToUsd(e.a, e.b, e.c)
-    [] OTHER                       -> Fail
+  CASE e.op = "mul_div" -> Precise_mul_div(e)
+    [] e.op = "mul_div_ceil" -> Precise_mul_div_ceil(e)
+    [] e.op = "mul_div_signed" -> Precise_mul_div_signed(e)
+    [] e.op = "round_up_div" -> Precise_round_up_div(e)
+    [] e.op = "round_up_mag_div" -> Precise_round_up_mag_div(e)
+    [] e.op = "bound_magnitude" -> Precise_bound_magnitude(e)
+    [] e.op = "add_signed" -> Precise_add_signed(e)
+    [] e.op = "sub_signed" -> Precise_sub_signed(e)
+    [] e.op = "mul_signed" -> Precise_mul_signed(e)
+    [] e.op = "signed_sub" -> Precise_signed_sub(e)
+    [] e.op = "to_signed" -> Precise_to_signed(e)
+    [] e.op = "to_opposite_signed" -> Precise_to_opposite_signed(e)
+    [] e.op = "diff" -> Precise_diff(e)
+    [] e.op = "apply_factor" -> Precise_apply_factor(e)
+    [] e.op = "div_to_factor" -> Precise_div_to_factor(e)
+    [] e.op = "div_to_factor_signed" -> Precise_div_to_factor_signed(e)
+    [] e.op = "apply_exponent_factor" -> Precise_apply_exponent_factor(e)
+    [] e.op = "apply_factors" -> Precise_apply_factors(e)
+    [] e.op = "pow_fixed" -> Precise_pow_fixed(e)
+    [] e.op = "usd_to_mt" -> Precise_usd_to_mt(e)
+    [] e.op = "mt_to_usd" -> Precise_mt_to_usd(e)
+    [] OTHER -> Fail
 
 (* the mathematically defined result: differs from Precise only where the code may fail although
    the rounded result is representable *)
 \* @type: ($numEv) => {ok: Bool, v: Int};
+Math_mul_div(e) ==
+  Precise_mul_div(e)
+\* @type: ($numEv) => {ok: Bool, v: Int};
+Math_mul_div_ceil(e) ==
+  Precise_mul_div_ceil(e)
+\* @type: ($numEv) => {ok: Bool, v: Int};
+Math_mul_div_signed(e) ==
+  IF e.c = 0 THEN Fail
+  ELSE S(IF e.b < 0 THEN -FloorDiv(e.a * (-e.b), e.c) ELSE FloorDiv(e.a * e.b, e.c))
+\* @type: ($numEv) => {ok: Bool, v: Int};
+Math_round_up_div(e) ==
+  IF e.b = 0 THEN Fail ELSE U(CeilDiv(e.a, e.b))
+\* @type: ($numEv) => {ok: Bool, v: Int};
+Math_round_up_mag_div(e) ==
+  IF e.a = 0 THEN Fail ELSE S(IF e.b < 0 THEN -CeilDiv(-e.b, e.a) ELSE CeilDiv(e.b, e.a))
+\* @type: ($numEv) => {ok: Bool, v: Int};
+Math_bound_magnitude(e) ==
+  IF e.b > e.c THEN Fail
+  ELSE S(IF Abs(e.a) < e.b THEN (IF e.a < 0 THEN -e.b ELSE e.b)
+         ELSE IF Abs(e.a) > e.c THEN (IF e.a < 0 THEN -e.c ELSE e.c) ELSE e.a)
+\* @type: ($numEv) => {ok: Bool, v: Int};
+Math_add_signed(e) ==
+  Precise_add_signed(e)
+\* @type: ($numEv) => {ok: Bool, v: Int};
+Math_sub_signed(e) ==
+  Precise_sub_signed(e)
+\* @type: ($numEv) => {ok: Bool, v: Int};
+Math_mul_signed(e) ==
+  S(e.a * e.b)
+\* @type: ($numEv) => {ok: Bool, v: Int};
+Math_signed_sub(e) ==
+  S(e.a - e.b)
+\* @type: ($numEv) => {ok: Bool, v: Int};
+Math_to_signed(e) ==
+  Precise_to_signed(e)
+\* @type: ($numEv) => {ok: Bool, v: Int};
+Math_to_opposite_signed(e) ==
+  S(-e.a)
+\* @type: ($numEv) => {ok: Bool, v: Int};
+Math_diff(e) ==
+  Precise_diff(e)
+\* @type: ($numEv) => {ok: Bool, v: Int};
+Math_apply_factor(e) ==
+  Precise_apply_factor(e)
+\* @type: ($numEv) => {ok: Bool, v: Int};
+Math_div_to_factor(e) ==
+  Precise_div_to_factor(e)
+\* @type: ($numEv) => {ok: Bool, v: Int};
+Math_div_to_factor_signed(e) ==
+  IF e.b = 0 THEN Ok(0)
+  ELSE S(IF e.a < 0 THEN -FloorDiv(Unit * (-e.a), e.b) ELSE FloorDiv(Unit * e.a, e.b))
+\* @type: ($numEv) => {ok: Bool, v: Int};
+Math_apply_exponent_factor(e) ==
+  Precise_apply_exponent_factor(e)
+\* @type: ($numEv) => {ok: Bool, v: Int};
+Math_apply_factors(e) ==
+  Precise_apply_factors(e)
+\* @type: ($numEv) => {ok: Bool, v: Int};
+Math_pow_fixed(e) ==
+  Precise_pow_fixed(e)
+\* @type: ($numEv) => {ok: Bool, v: Int};
+Math_usd_to_mt(e) ==
+  Precise_usd_to_mt(e)
+\* @type: ($numEv) => {ok: Bool, v: Int};
+Math_mt_to_usd(e) ==
+  Precise_mt_to_usd(e)
+
+\* @type: ($numEv) => {ok: Bool, v: Int};
 Math(e) ==
-  CASE e.op = "round_up_div"     -> IF e.b = 0 THEN Fail ELSE U(CeilDiv(e.a, e.b))
-    [] e.op = "round_up_mag_div" ->
-         IF e.a = 0 THEN Fail ELSE S(IF e.b < 0 THEN -CeilDiv(-e.b, e.a) ELSE CeilDiv(e.b, e.a))
-    [] e.op = "mul_div_signed"   ->
-         IF e.c = 0 THEN Fail
-         ELSE S(IF e.b < 0 THEN -FloorDiv(e.a * (-e.b), e.c) ELSE FloorDiv(e.a * e.b, e.c))
-    [] e.op = "to_opposite_signed" -> S(-e.a)
-    [] e.op = "signed_sub"       -> S(e.a - e.b)
-    [] e.op = "mul_signed"       -> S(e.a * e.b)
-    [] e.op = "div_to_factor_signed" ->
-         IF e.b = 0 THEN Ok(0)
-         ELSE S(IF e.a < 0 THEN -FloorDiv(Unit * (-e.a), e.b) ELSE FloorDiv(Unit * e.a, e.b))
-    [] e.op = "bound_magnitude" ->
-         IF e.b > e.c THEN Fail
-         ELSE S(IF Abs(e.a) < e.b THEN (IF e.a < 0 THEN -e.b ELSE e.b)
-                ELSE IF Abs(e.a) > e.c THEN (IF e.a < 0 THEN -e.c ELSE e.c) ELSE e.a)
-    [] OTHER -> Precise(e)
+  CASE e.op = "mul_div" -> Math_mul_div(e)
+    [] e.op = "mul_div_ceil" -> Math_mul_div_ceil(e)
+    [] e.op = "mul_div_signed" -> Math_mul_div_signed(e)
+    [] e.op = "round_up_div" -> Math_round_up_div(e)
+    [] e.op = "round_up_mag_div" -> Math_round_up_mag_div(e)
+    [] e.op = "bound_magnitude" -> Math_bound_magnitude(e)
+    [] e.op = "add_signed" -> Math_add_signed(e)
+    [] e.op = "sub_signed" -> Math_sub_signed(e)
+    [] e.op = "mul_signed" -> Math_mul_signed(e)
+    [] e.op = "signed_sub" -> Math_signed_sub(e)
+    [] e.op = "to_signed" -> Math_to_signed(e)
+    [] e.op = "to_opposite_signed" -> Math_to_opposite_signed(e)
+    [] e.op = "diff" -> Math_diff(e)
+    [] e.op = "apply_factor" -> Math_apply_factor(e)
+    [] e.op = "div_to_factor" -> Math_div_to_factor(e)
+    [] e.op = "div_to_factor_signed" -> Math_div_to_factor_signed(e)
+    [] e.op = "apply_exponent_factor" -> Math_apply_exponent_factor(e)
+    [] e.op = "apply_factors" -> Math_apply_factors(e)
+    [] e.op = "pow_fixed" -> Math_pow_fixed(e)
+    [] e.op = "usd_to_mt" -> Math_usd_to_mt(e)
+    [] e.op = "mt_to_usd" -> Math_mt_to_usd(e)
+    [] OTHER -> Fail
 
 (* C01 monitor: never panics; a returned value is the exactly rounded, representable result *)
 \* @type: ($numEv) => Bool;
 MonNoPanic(e) == ~e.panic
+\* @type: ($numEv, {ok: Bool, v: Int}) => Bool;
+ExactWith(e, m) == e.ok => (m.ok /\ e.v = m.v)
+\* @type: ($numEv, {ok: Bool, v: Int}) => Bool;
+ConformsWith(e, p) == ~e.panic /\ e.ok = p.ok /\ (e.ok => e.v = p.v)
 \* @type: ($numEv) => Bool;
-MonExact(e)   == e.ok => (Math(e).ok /\ e.v = Math(e).v)
+MonExact(e)   == ExactWith(e, Math(e))
 \* @type: ($numEv) => Bool;
-Conforms(e)   == ~e.panic /\ e.ok = Precise(e).ok /\ (e.ok => e.v = Precise(e).v)
+Conforms(e)   == ConformsWith(e, Precise(e))
 =============================================================================
